@@ -4,7 +4,7 @@ CFG = {
     "harness": ["v1", "v2"],
     "functional": ["C08.old", "C08.bool1", "C08.bool2", "C08.fn", "C08.tagstring"],
     "required_classes": ["tagline", "args", "value", "trailing-comment", "soup", "tagnames", "bool-error", "fn-error",
-                         "exhaustive-args", "marker-comment-or-space", "empty-marker", "v1", "v2", "tagnames-empty-not-nil"],
+                         "exhaustive-args", "marker-comment-or-space", "empty-marker", "v1", "v2", "tagnames-empty-not-nil", "bool-one-key-several-times"],
     "rule": "grammar-directed comment lines (marker variants incl. empty, multi-rune, containing '//' or ending in space; keys; (arg) forms incl. malformed; values with '='; trailing // comments; ASCII and Unicode whitespace, letters, digits) plus rune soup over the property's alphabet; a case is non-trivial when its input is longer than 12 characters of s-expression; distinct = distinct (entry,input)",
     "exhaustive": ["every argument text of length <= 4 over {a,1,(,),comma,space,e-acute} through ExtractFunctionStyleCommentTags (2801 inputs)",
                    "unicode.IsSpace vs the model's is_space on every code point; IsLetter/IsDigit vs the model's tables on every rune the generators emit"],
